@@ -19,7 +19,7 @@ MANIFEST = {
                  "per-position equivalence with the textbook statistic; counterexamples replayed natively",
     "design_ref": "DESIGN.md 3/C01, 1.2",
     "level_text": "for every real-valued series within the bound (length<=5 quick / 7 thorough, all windows 1..=L+2, min_periods "
-                  "in {omitted,0,1,2,w}, null masks) and with every f64 operation read as its exact real counterpart, each of the "
+                  "in {omitted} U 0..=w, null masks) and with every f64 operation read as its exact real counterpart, each of the "
                   "16 rolling moment kernels returns the from-scratch statistic of its window at every position (null exactly when "
                   "the count is below the threshold); because the state after k add/remove steps is symbolic in the whole "
                   "history, a wrong removal term or expiry index shows up as dependence on an expired element",
@@ -41,14 +41,14 @@ def shapes(k, tier):
     rng = random.Random(seed() * 7919 + len(k.name))
     heavy = k.name.endswith(("skew", "kurt"))
     if tier == "quick":
-        Ls = [0, 1, 5] if not heavy else [0, 4, 5]
+        Ls = [0, 1, 2, 3, 5] if not heavy else [0, 3, 4, 5]
     else:
         Ls = [0, 1, 2, 3, 4, 5, 6, 7] if not heavy else [0, 3, 4, 5, 6]
     for L in Ls:
         for w in range(1, L + 3):
             if heavy and w > (4 if tier == "quick" else 5):
                 continue            # polynomial normal form of the 4th-moment identity grows fast with the window
-            mps = [None, 0, 1, 2, w] if tier == "quick" else [None] + list(range(0, w + 1))
+            mps = [None] + list(range(0, w + 1))
             mps = [m for i, m in enumerate(mps) if m not in mps[:i] and (m is None or m <= w)]
             for mp in mps:
                 for mask in kernels.masks_for(L, k.null_aware, tier, rng):
@@ -69,8 +69,8 @@ def check(v, tier, opts):
         v.engines["mir2smt"].update({"queries": E.solver.queries, "answers": E.solver.stats, "exec_s": round(E.exec_s, 1),
                                      "normalised_value_queries": E.norm_stats, "translator_vectors": locals().get("n", 0)})
         E.close()
-    v.bounds.append("L in {0,1,5} quick ({0,4,5} for skew/kurt), {0..7} thorough; w in 1..=L+2 (skew/kurt: w<=4 quick, <=5 thorough); "
-                    "min_periods in {omitted,0,1,2,w} quick, {omitted} U 0..=w thorough; all 2^L null masks for L<=4, structured + seeded masks above; |x|<=100")
+    v.bounds.append("L in {0,1,2,3,5} quick ({0,3,4,5} for skew/kurt), {0..7} thorough; w in 1..=L+2 (skew/kurt: w<=4 quick, <=5 thorough); "
+                    "min_periods in {omitted} U 0..=w; all 2^L null masks for L<=4, structured + seeded masks above; |x|<=100")
     v.assumptions += ["driver protocol of rolling_apply (C02)", "IsNone/Cast table rows for f64/Option<f64>/i32 (C15)",
                       "f64 arithmetic read as exact real arithmetic; sqrt as the non-negative real root"]
     v.outside += ["size of accumulated rounding error", "values outside |x|<=100 (overflow to inf)",
